@@ -14,6 +14,7 @@ import (
 // present in the tree under test, tell the Lean driver which variant of the model applies, and
 // report each present defect with its minimal replay.
 func (h *harness) probes() {
+	h.runnerProbes()
 	over, skip := true, true
 	// (A) resume over a hole: range 0 unmigrated, range 1 migrated
 	{
@@ -51,6 +52,10 @@ func (h *harness) probes() {
 	}
 	if a := h.bt.ask("cfg " + b2(h.l9) + " " + b2(h.unkLast) + " " + b2(over) + " " + b2(skip)); a != "ok" {
 		h.res.Mismatch(lib.Mismatch{Sig: "cfg-rejected", Model: a})
+	}
+	// with the model variant fixed, run the probe histories for the record (violations + correspondence)
+	for _, hist := range h.probeHists {
+		h.runnerHistoryCase(hist, "probe")
 	}
 }
 
